@@ -152,6 +152,29 @@ def part_a(tier, seed):
         if bl != str(want_bl) or dcl != str(cl) or (dcwl != "-" and dcwl != str(cwl)):
             viol(r, "c17-mr-decode", "%s CL=%s CWL=%s nphases=%d: programmed registers %s decode (JEDEC) to BL=%s CL=%s CWL=%s, the PHY/controller use BL=%d CL=%s CWL=%s"
                  % (mt, cl, cwl, nph, regs, bl, dcl, dcwl, want_bl, cl, cwl), rp)
+    # electrical fields of DDR3/DDR4 MR1/MR2 decoded (JEDEC field positions, Spec/JedecMR) against the settings handed in;
+    # the code -> value tables D3_*/D4_* above are the JEDEC ones (79-3F table "MR1 definition", 79-4 "MR1/MR2")
+    el_lines, el_meta = [], []
+    for (mt, cl, cwl, nph, tw, el, regs) in dec_meta:
+        if mt in ("DDR3", "DDR4"):
+            el_lines.append("%d %d %d" % (MEM[mt], regs.get(1, 0), regs.get(2, 0)))
+            el_meta.append((mt, cl, cwl, nph, tw, el, regs))
+    for (mt, cl, cwl, nph, tw, el, regs), d in zip(el_meta, core.run_driver("c17elec", el_lines)):
+        ron, rn, td, rw, special = map(int, d.split())
+        T = (D3_RON, D3_RTT_NOM, D3_RTT_WR) if mt == "DDR3" else (D4_RON, D4_RTT_NOM, D4_RTT_WR)
+        dflt = dict(ron="34ohm", rtt_nom="60ohm", rtt_wr="60ohm") if mt == "DDR3" else dict(ron="34ohm", rtt_nom="40ohm", rtt_wr="120ohm")
+        name = lambda tab, c: tab[c] if c < len(tab) else "reserved(%d)" % c
+        got = dict(ron=name(T[0], ron), rtt_nom=name(T[1], rn), rtt_wr=name(T[2], rw), tdqs=td)
+        want = dict(ron=el.get("ron", dflt["ron"]), rtt_nom=el.get("rtt_nom", dflt["rtt_nom"]),
+                    rtt_wr=el.get("rtt_wr", dflt["rtt_wr"]), tdqs=el.get("tdqs", 0))
+        r.coverage["partA_electrical_decoded"] = r.coverage.get("partA_electrical_decoded", 0) + 1
+        if got != want or special != 0:
+            bits = [nm for k, nm in ((0, "write-levelling enable (A7)"), (1, "Qoff (A12)"), (2, "DLL disable (A0)")) if special >> k & 1]
+            if special >> 3:
+                bits.append("additive latency (A4:A3) = %d" % (special >> 3))
+            viol(r, "c17-mr-electrical", "%s MR1=%#x MR2=%#x programmed for %s decode (JEDEC) to %s%s"
+                 % (mt, regs.get(1, 0), regs.get(2, 0), want, got, (" and set " + ", ".join(bits)) if bits else ""),
+                 dict(memtype=mt, cl=cl, cwl=cwl, nphases=nph, options=el, registers=regs, decoded=got, special_bits=special))
     r.coverage["partA_configs"] = len(cs)
     r.coverage["partA_keyerror_agreed"] = sum(1 for a, b in zip(impls, mo) if a == b == "keyerror")
     r.samples.append(dict(part="A", memtype="DDR3", line=lines[60], impl=impls[60]))
